@@ -37,10 +37,10 @@ def _with_seam(fn):
 
 
 CFG = dict(
-    imports=["From Verif.C38 Require Import Model Spec."],
-    checker="check_case",
+    imports=["From Verif.C38 Require Import Model Spec Multi MultiSpec."],
+    checker="check_case2",
     harness_dirs=["C19", "C38"],
-    n=dict(quick=200, thorough=6000),
+    n=dict(quick=160, thorough=5000),
     shard=25,
     rule="each case = a fresh in-memory datastore (C19 membackend) with an IPv4 pool (2-16 addresses, or none) and an IPv6 pool "
          "(2-8 addresses, or none), 1-3 containers (Kubernetes identifiers ns/pod + sandbox id, possibly sharing a pod, or plain CNI "
@@ -51,7 +51,10 @@ CFG = dict(
          "and an error, a family comes back empty without error, ReleaseByHandle releases part and fails, the k-th datastore access of the "
          "call fails; error values: plain, context deadline exceeded, datastore error); natural exhaustion and missing pools also occur. "
          "Recorded: every IPAM call (arguments, lock held, answer, effect = table difference), result, marker, allocation table after each "
-         "invocation.  Non-trivial = a successful delete after an add that allocated something, with at least one injected fault, a "
+         "invocation, plus the IPAMHandle objects (handle -> block -> count) and the block of every address: the invariant 'no handle "
+         "object under-counts a block' is evaluated on every observed state, and every invocation without an injected fault is replayed by the "
+         "datastore-level model of Multi.v (incrementHandle/block write/decrementHandle/ReleaseByHandle over the listed blocks) and must "
+         "reproduce the observed table and handle objects (tags handle-spans-blocks, fault-while-handle-spans-blocks).  Non-trivial = a successful delete after an add that allocated something, with at least one injected fault, a "
          "roll-back release or a naturally short family.  Distinct by (initial table, operations, calls, answers).",
     trusted=["Coq 8.16.1 kernel + vm_compute",
              "hand-written model coq/theories/C38/Model.v (plugin programs over an abstract IPAM with an explicit contract `admissible`) tied "
@@ -63,8 +66,9 @@ CFG = dict(
     assumptions=["IPAM contract (Model.admissible): a call only adds fresh addresses, AutoAssign/AssignIP only under the handle passed, AutoAssign "
                  "without error returns exactly what it allocated (nil assignment iff nothing requested, at most the requested count), "
                  "ReleaseIPs/ReleaseByHandle only remove what they were asked to and remove all of it when they report success, "
-                 "ReleaseByHandle answers 'not found' only when the handle holds nothing (C19: handle records never under-count); checked on every "
-                 "recorded call of the real IPAM client",
+                 "ReleaseByHandle answers 'not found' only when the handle holds nothing; checked on every recorded call of the real IPAM client; "
+                 "the ReleaseByHandle part is PROVED for the library's algorithm (multi-block handles, a fault at any datastore access) in Multi.v "
+                 "for a sequential client (compare-and-swap conflicts between clients are C19's subject)",
                  "KubeVirt / VM address persistence paths (virt-launcher-* pods), namespaceSelector lookup (needs a Kubernetes API server), Windows "
                  "reserved attributes and named-pool resolution are outside the model and the generator",
                  "lost-reply datastore faults are not injected (a write that is applied but reported failed is outside the IPAM contract above)",
